@@ -129,7 +129,7 @@ func runCheck(prop, tier, repo, verif, only string, updateBaseline bool) int {
 	if t := os.Getenv("VERIF_TIER"); t != "" && tier == "" {
 		tier = t
 	}
-	timeout, need := 25, 1
+	timeout, need := 40, 1
 	if tier == "thorough" {
 		timeout, need = 120, 2
 	}
@@ -285,7 +285,11 @@ func runCheck(prop, tier, repo, verif, only string, updateBaseline bool) int {
 	DischargeAll(todo, outDir, timeout, need, (runtime.NumCPU()+1)/2)
 
 	// ---- verdicts
-	known := loadKnownFindings(filepath.Join(verif, "known_findings.jsonl"))
+	kfPath := filepath.Join(verif, "known_findings.jsonl")
+	if p := os.Getenv("GOVC_KNOWN_FINDINGS"); p != "" {
+		kfPath = p
+	}
+	known := loadKnownFindings(kfPath)
 	knownBy := map[string]KnownFinding{}
 	for _, k := range known {
 		if k.Property == prop && k.Status == "known" {
@@ -294,6 +298,9 @@ func runCheck(prop, tier, repo, verif, only string, updateBaseline bool) int {
 	}
 	var base Baseline
 	basePath := filepath.Join(verif, "baseline", prop+".json")
+	if d := os.Getenv("GOVC_BASELINE_DIR"); d != "" {
+		basePath = filepath.Join(d, prop+".json")
+	}
 	if b, err := os.ReadFile(basePath); err == nil {
 		json.Unmarshal(b, &base)
 	}
